@@ -7,6 +7,19 @@ def scrypt64(pw_bytes, salt):
     return hashlib.scrypt(pw_bytes, salt=salt, n=16384, r=8, p=8, dklen=64, maxmem=256 * 1024 * 1024)
 
 
+def b58decode_check_harness(st):
+    B58 = '123456789ABCDEFGHJKLMNPQRSTUVWXYZabcdefghijkmnopqrstuvwxyz'
+    n = 0
+    for ch in st:
+        if ch not in B58:
+            return None
+        n = n * 58 + B58.index(ch)
+    raw = n.to_bytes((n.bit_length() + 7) // 8, 'big')
+    raw = b'\0' * (len(st) - len(st.lstrip('1'))) + raw
+    body, chk = raw[:-4], raw[-4:]
+    return body if hashlib.sha256(hashlib.sha256(body).digest()).digest()[:4] == chk else None
+
+
 def run(ctx):
     from bitcoinlib.keys import Key, HDKey, bip38_intermediate_password, bip38_create_new_encrypted_wif, bip38_decrypt
     from bitcoinlib.networks import NETWORK_DEFINITIONS
@@ -102,11 +115,12 @@ def run(ctx):
                           {'op': 'vector-unicode', 'passphrase_repr': ascii(spelling), 'observed': None if k is None else k.wif()})
 
     # ---- EC-multiplied mode --------------------------------------------------------------------------------------------
-    for trial in range(6 if T else 2):
+    for trial in range(12 if T else 4):
         pw = rng.choice(passes[:4])
+        # every combination of (lot/sequence given, compressed) - the flag byte is 0x20 / 0x00 / 0x24 / 0x04 (BIP38)
         lot, seq = (rng.randrange(100000, 999999), rng.randrange(0, 4095)) if trial % 2 else (None, None)
         salt = bytes(rng.randrange(256) for _ in range(8))
-        comp = rng.random() < 0.5
+        comp = (trial // 2) % 2 == 0
         seedb = bytes(rng.randrange(256) for _ in range(24))
         ctx.evals += 1
         ctx.count('ec-mode')
@@ -114,6 +128,12 @@ def run(ctx):
         try:
             ip = bip38_intermediate_password(pw, lot=lot, sequence=seq, owner_salt=salt)
             res = bip38_create_new_encrypted_wif(ip, compressed=comp, seed=seedb)
+            payload = b58decode_check_harness(res['encrypted_wif'])
+            want_flag = (0x20 if comp else 0x00) | (0x04 if lot is not None else 0x00)
+            if payload is None or payload[:2] != b'\x01\x43' or payload[2] != want_flag:
+                ctx.violation('EC-multiplied key carries a wrong prefix / flag byte',
+                              {'op': 'ec-mode-flag', 'lot': lot, 'compressed': comp, 'observed': None if payload is None else payload[:3].hex(),
+                               'expected': '0143%02x' % want_flag})
             k = Key(res['encrypted_wif'], password=pw)
             ok = k.address(compressed=comp) == res['address'] and k.compressed == comp
             wrong = attempt(lambda: Key(res['encrypted_wif'], password=pw + 'x'))
